@@ -107,6 +107,9 @@ def _filters(ctx):
     uris = ['http://a.b/x', 'http://A.B/x/y', 'http://a.b/z', 'sdc.ctxt.loc:/x%2Fy']
     type_lists = [None] + [list(t) for n in range(0, 3) for t in itertools.permutations(q, n)]
     scope_lists = [None] + [list(t) for n in range(0, 3) for t in itertools.permutations(uris, n)]
+    # requested scopes also with the scheme spelled in another case than the services use
+    req_uris = uris + ['HTTP://a.b/x', 'SDC.CTXT.LOC:/x%2Fy', 'Http://A.b/z']
+    req_scope_lists = [None] + [list(t) for n in range(0, 3) for t in itertools.permutations(req_uris, n)]
 
     def mk_scopes(lst, rule=None):
         if lst is None:
@@ -120,7 +123,7 @@ def _filters(ctx):
         for sl in scope_lists[:8]:
             services.append(Service(tl if tl is not None else [], mk_scopes(sl), ['http://1.2.3.4/'], f'urn:e{len(services)}', '1'))
     for req_t in type_lists:
-        for req_s in scope_lists:
+        for req_s in req_scope_lists:
             for rule, rname in ((None, 'uri'), (MatchBy.strcmp, 'strcmp')):
                 want = []
                 for srv in services:
@@ -421,7 +424,7 @@ def alphabet(quick):
         evs += [('hello', 'B', 1, 'full', True), ('pmatch', 'B', 2, 'full', True)]
     evs += [('bye', 'A'), ('bye', 'B'), ('repeat',), ('repeat', 2), ('callback', 'raises'), ('callback', 'ok'), ('publish', 'A'), ('publish', 'B'), ('clear', 'A'),
             ('probe', None, None, None), ('probe', ['T1'], None, None), ('probe', ['T9'], None, None),
-            ('probe', ['T1'], 'http://A.B/A', None), ('probe', None, 'http://a.b/B/x/y', None),
+            ('probe', ['T1'], 'http://A.B/A', None), ('probe', None, 'http://a.b/B/x/y', None), ('probe', None, 'HTTP://a.b/A', None),
             ('probe', None, 'http://a.b/A/x', 'http://docs.oasis-open.org/ws-dd/ns/discovery/2009/01/strcmp0'),
             ('probe', None, 'http://A.B/A/x', 'http://docs.oasis-open.org/ws-dd/ns/discovery/2009/01/strcmp0'),
             ('resolve', EPRS['A']), ('resolve', 'urn:uuid:unknown')]
